@@ -260,7 +260,20 @@ def _check(item):
     return check_repetition(item) if item[0] == "rep" else check_item(item)
 
 
+def watch_in_called_macro(ctx):
+    """Every invocation of a macro body starts each of its lines once - also the lines of a Watch in that body, in the second and
+    third call (scenario and driver shared with C41; X > 1 holds throughout)."""
+    from mc.checks import c41
+    n = 0
+    for name in c41.WATCH_IN_MACRO:
+        n += 1
+        for sig, what in c41.check_watch_in_macro((name, "true")):
+            ctx.violation(sig.replace("C41:", "C02:"), what, {"watch_in_macro": [name, "true"]})
+    return n
+
+
 def run(ctx):
+    extra_execs = watch_in_called_macro(ctx)
     items = corpus(ctx)
     ctx.prove_deterministic(lambda it: _check(it)[0], [items[5], items[len(items) // 2], items[-3]], k=2)
     results = ctx.pmap(_check, items)
@@ -297,6 +310,11 @@ def run(ctx):
 
 
 def replay(data):
+    if "watch_in_macro" in data:
+        from mc.checks import c41
+        out = [(sig.replace("C41:", "C02:"), what) for sig, what in c41.check_watch_in_macro(tuple(data["watch_in_macro"]))]
+        print("program:", c41.WATCH_IN_MACRO[data["watch_in_macro"][0]], "X > 1 throughout ->", out or "as expected")
+        return out
     if "rerun" in data:
         f = _forest(data["rerun"])
         print("program:", data["rerun"], "trajectory:", data["traj"])
